@@ -67,13 +67,18 @@ pub struct Post {
     /// are asked again: a restored model is a model
     #[serde(default)]
     pub roundtrip: u8,
+    /// ask the standard rows a second time, as a matrix of the same shape with the rows in reverse (1) or rotated (2)
+    /// order, directly after the first call: an answer belongs to its row, not to its position in an earlier call
+    #[serde(default)]
+    pub requery: u8,
 }
 
 fn post_of(seed: u64) -> Post {
     let mut r = Xo::fork(seed, "post");
     let many = if r.chance(0.012) { *r.pick(&[1030usize, 1030, 2060, 4100, 4100, 8200, 16_400, 65_600]) } else { 0 };
     let roundtrip = if r.chance(0.2) { 1 + r.below(2) as u8 } else { 0 };
-    Post { many, roundtrip }
+    let requery = if r.chance(0.15) { 1 + r.below(2) as u8 } else { 0 };
+    Post { many, roundtrip, requery }
 }
 
 /// scrambled repetition of m standard rows up to `total` rows: source index of every row of the big matrix
@@ -594,7 +599,20 @@ impl C10 {
                     }
                 };
                 let tof = |v: Vec<T>| -> Vec<f64> { v.iter().map(|x| x.to_f64().unwrap_or(f64::NAN)).collect() };
-                if case.post.many > 0 {
+                if case.post.requery > 0 {
+                    let m = q.len();
+                    let src: Vec<usize> = if case.post.requery == 1 { (0..m).rev().collect() } else { (0..m).map(|j| (j + 1 + (case.tape.seed % m as u64) as usize) % m).collect() };
+                    let again: Vec<Vec<f64>> = src.iter().map(|s| q[*s].clone()).collect();
+                    let am: DenseMatrix<T> = mat(&again);
+                    rep.count("fault.same-rows-asked-again-in-another-order", 1);
+                    // (the standard call is repeated first, so that the reordered matrix follows a call of the same shape)
+                    match guarded(|| { let _ = model.decision_function(&qm); let _ = model.predict(&qm); (model.decision_function(&am), model.predict(&am)) }) {
+                        Ok((Ok(dvb), Ok(labb))) => same("the same rows in another order", rep, &src, &tof(dvb), &tof(labb)),
+                        Ok((a, bb)) => rep.fail("predict-error", "svc-predict", format!("{}: second query failed: {:?} {:?}", ctx, a.err().map(|e| e.to_string()), bb.err().map(|e| e.to_string()))),
+                        Err(msg) => rep.fail("panic", "svc-predict", format!("{}: second query panicked: {}", ctx, msg)),
+                    }
+                }
+                if case.post.many > 0 && rep.violation.is_none() {
                     let src = many_rows_src(case.post.many, q.len(), case.tape.seed);
                     let big: Vec<Vec<f64>> = src.iter().map(|s| q[*s].clone()).collect();
                     let bm: DenseMatrix<T> = mat(&big);
@@ -862,7 +880,19 @@ impl C10 {
                     }
                 };
                 let tof = |v: Vec<T>| -> Vec<f64> { v.iter().map(|x| x.to_f64().unwrap_or(f64::NAN)).collect() };
-                if case.post.many > 0 {
+                if case.post.requery > 0 {
+                    let m = q.len();
+                    let src: Vec<usize> = if case.post.requery == 1 { (0..m).rev().collect() } else { (0..m).map(|j| (j + 1 + (case.tape.seed % m as u64) as usize) % m).collect() };
+                    let again: Vec<Vec<f64>> = src.iter().map(|s| q[*s].clone()).collect();
+                    let am: DenseMatrix<T> = mat(&again);
+                    rep.count("fault.same-rows-asked-again-in-another-order", 1);
+                    match guarded(|| { let _ = model.predict(&qm); model.predict(&am) }) {
+                        Ok(Ok(prb)) => same("the same rows in another order", rep, &src, &tof(prb)),
+                        Ok(Err(e)) => rep.fail("predict-error", "svr-predict", format!("{}: second query failed: {}", ctx, e)),
+                        Err(msg) => rep.fail("panic", "svr-predict", format!("{}: second query panicked: {}", ctx, msg)),
+                    }
+                }
+                if case.post.many > 0 && rep.violation.is_none() {
                     let src = many_rows_src(case.post.many, q.len(), case.tape.seed);
                     let big: Vec<Vec<f64>> = src.iter().map(|s| q[*s].clone()).collect();
                     let bm: DenseMatrix<T> = mat(&big);
@@ -1555,11 +1585,25 @@ impl Property for C10 {
             Batch { name: "svr-f32-resolution", count: if q { 1_500 } else { 60_000 }, simulated: false, exhaustive: false, note: "schedule-free: f32 fits whose tolerance lies below the floating-point resolution of the targets (|y| 1e3..1e5, tol 1e-3..1e-4) — the region of the repaired livelock" },
             Batch { name: "svr-f32-offcentre", count: if q { 300 } else { 20_000 }, simulated: false, exhaustive: false, note: "schedule-free, single precision: feature columns offset by 16..256 with spread 1, centred targets with slope 10..60 (|b| >> |y|): the gradients grow by orders of magnitude during the fit" },
             Batch { name: "svr-f32", count: if q { 1_000 } else { 100_000 }, simulated: false, exhaustive: false, note: "schedule-free, single precision" },
+            Batch { name: "many-rows-huge", count: if q { 3 } else { 12 }, simulated: true, exhaustive: false, note: "one predict call with 3e5..1.1e6 rows (thorough: up to 4.2e6): block sizes of 2^18..2^22 elements; a cap beyond the largest call made here stays invisible" },
             Batch { name: "kernels", count: if q { 6_000 } else { 600_000 }, simulated: false, exhaustive: false, note: "schedule-free: closed forms, symmetry, PSD of linear/RBF Gram matrices" },
             Batch { name: "kernels-f32", count: if q { 2_000 } else { 200_000 }, simulated: false, exhaustive: false, note: "schedule-free, single precision" },
         ]
     }
     fn gen(&self, batch: &str, index: u64, seed: u64) -> Case {
+        if batch == "many-rows-huge" {
+            let mut c = gen_case(if index % 3 == 2 { "svr" } else { "svc-prng" }, index, seed);
+            c.post.many = [300_000usize, 600_000, 1_100_000, 4_200_000][(index % 4) as usize];
+            if c.post.many > 2_000_000 && c.x.len() > 20 {
+                c.x.truncate(20);
+                c.y.truncate(20);
+                if c.model == "svc" && c.y.iter().all(|v| *v == c.y[0]) {
+                    c.y[0] = if c.y[0] == 1.0 { -1.0 } else { c.y[0] + 1.0 };
+                }
+            }
+            c.kind = format!("{}+many-rows-huge", c.kind);
+            return c;
+        }
         gen_case(batch, index, seed)
     }
     fn run(&self, case: &Case) -> Report {
